@@ -37,7 +37,7 @@ theorem compact_dst_wf (limit : Nat) (src : SVal)
     inside the nested bucket -/
 example :
     let src : SVal := .bkt 0 [([1], .bkt 7 [([2], .val []), ([3], .bkt 5 [([1], .val [1, 2, 3])])]), ([4], .bkt 0 [])]
-    (compact 1 src).dst = src ∧ (compact 1 src).err = none ∧ (compact 1 src).commits = 5 := by
+    (compact 1 src).dst = src ∧ (compact 1 src).err = none ∧ (compact 1 src).commits = 4 := by
   sorry
 
 end Bolt.C15
